@@ -124,8 +124,13 @@ def coherent_dedispersion(z, DM, /, *, ref_freq=None, chirp=None):
     chirp = chirp[(slice(None),) * chirp.ndim + (None,) * (z.ndim - chirp.ndim)]
     x = pb.fft.ifft(pb.fft.fft(z.data, axis=0) * chirp, axis=0)
 
-    delay_top = DM.sample_delay(z.max_freq, ref_freq, z.sample_rate)
-    delay_bot = DM.sample_delay(z.min_freq, ref_freq, z.sample_rate)
+    # The band that is dedispersed: every channel covers its centre frequency
+    # +- half a channel. (For 'bottom' or 'top' alignment of an even number of
+    # channels this is not center_freq +- bandwidth / 2.)
+    freq_top = z.channel_freqs[-1] + z.chan_bw / 2
+    freq_bot = z.channel_freqs[0] - z.chan_bw / 2
+    delay_top = DM.sample_delay(freq_top, ref_freq, z.sample_rate)
+    delay_bot = DM.sample_delay(freq_bot, ref_freq, z.sample_rate)
 
     start = math.ceil(-min(0, delay_top, delay_bot))
     stop = max(start, x.shape[0] - math.ceil(+max(0, delay_top, delay_bot)))
